@@ -312,4 +312,43 @@ def checkRC (users : Int) (op : String) (err checked : Bool) : List String :=
 def checkMode (before after : Bool) (measured : Nat) : List String :=
   if measured = 0 && before != after then ["C18/shared/refusal-changed-without-a-measurement"] else []
 
+
+/-! ## the loop on the clock: which ticks fall into a window of virtual time -/
+
+/-- instants in `(a, b]` at which a ticker armed at `armedAt` with period `ci` fires (`a ≥ armedAt`) -/
+def tickInstants (armedAt ci a b : Int) : List Int :=
+  if ci ≤ 0 then [] else
+    (List.range ((b - armedAt) / ci - (a - armedAt) / ci).toNat).map (fun (j : Nat) => armedAt + ((a - armedAt) / ci + 1 + (j : Int)) * ci)
+
+structure Timed where
+  sys : Sys := {}
+  /-- instant of the last arming of the ticker by a `Start` that found no user (`ticker.Reset(check_interval)`) -/
+  armedAt : Option Int := none
+deriving Repr, DecidableEq
+
+def Timed.start (k : Checker) (gs gh : Int) (t : Timed) (now : Int) : Timed :=
+  { sys := t.sys.step k gs gh .start, armedAt := if t.sys.rc.ref = 0 then some now else t.armedAt }
+
+def Timed.shutdown (k : Checker) (gs gh : Int) (t : Timed) : Timed :=
+  { t with sys := t.sys.step k gs gh .shutdown }
+
+/-- the readings the monitoring goroutine takes in the window `(a, b]` while memory is at `alloc` (a forced GC leaves `after`) -/
+def Timed.readings (t : Timed) (ci a b : Int) (alloc after : Nat) : List Reading :=
+  match t.armedAt with
+  | some r => (tickInstants r ci a b).map (fun i => { now := i, alloc := alloc, allocAfterGC := after })
+  | none => []
+
+structure WindowOut where
+  t : Timed
+  checks : Nat
+  gcs : Nat
+deriving Repr, DecidableEq
+
+/-- virtual time passes from `a` to `b` -/
+def Timed.window (k : Checker) (gs gh : Int) (t : Timed) (ci a b : Int) (alloc after : Nat) : WindowOut :=
+  let rs := t.readings ci a b alloc after
+  let sys' := Sys.run k gs gh t.sys (rs.map .tick)
+  { t := { t with sys := sys' }, checks := sys'.checks - t.sys.checks,
+    gcs := if t.sys.rc.checking then ((runChecks k gs gh t.sys.st rs).filter (·.gcRan)).length else 0 }
+
 end OtelVerif.C18
